@@ -728,3 +728,200 @@ Definition judge_C18 (c : c18case) : bool * bool * bool :=
     && forallb (fun h : Z * Z * hobs => match snd h with HOPanic => false | _ => true end) (ed_hovers c)
     && forallb (fun g : Z * Z * gobs => match snd g with GOPanic => false | _ => true end) (ed_gotos c) in
   (agree, prop, match cc_parse (ed_check c) with [] => false | _ => true end).
+
+(* ======================= C19: the language server ======================= *)
+From NS Require Import DocStore.
+
+Inductive lreq :=
+| LOpen (uri : string) (tid : nat)
+| LChange (uri : string) (tid : nat)
+| LHover (uri : string) (l c : Z)
+| LDef (uri : string) (l c : Z)
+| LSyms (uri : string).
+
+Inductive lobs :=
+| LPublished (uri : string) (ds : list (diag * sev_obs))
+| LHoverNone
+| LHoverVar (r : range) (name ty : string)
+| LHoverFn (r : range) (signature : string)      (* the first line of the message, e.g. `balance(account, asset) -> monetary` *)
+| LDefNone
+| LDefRange (uri : string) (r : range)
+| LSymbols (syms : list symbol)
+| LNothing
+| LPanic.
+
+Record c19case := mk_c19case {
+  lc_texts : list (program * list diag);          (* per text id: the dumped tree and the parser's errors *)
+  lc_history : list (lreq * lobs) }.
+
+Definition analysis := option document.           (* None: the analysis panicked *)
+
+Definition analyse_text (texts : list (program * list diag)) (tid : nat) : analysis :=
+  match nth_error texts tid with
+  | Some (p, pd) => match check_default p pd with Ok cs => Some (mkdoc [] p cs) | _ => None end
+  | None => None
+  end.
+
+Fixpoint join (sep : string) (l : list string) : string :=
+  match l with [] => "" | [x] => x | x :: l' => (x ++ sep ++ join sep l')%string end.
+
+Definition fn_signature (name : string) (params : list string) (ret : option string) : string :=
+  ("`" ++ name ++ "(" ++ join ", " params ++ ")" ++ match ret with Some r => " -> " ++ r | None => "" end ++ "`")%string.
+
+Definition hover_obs_of (a : analysis) (p : pos) : lobs :=
+  match a with
+  | None => LHoverNone
+  | Some d =>
+      match handle_hover d p with
+      | Ok None => LHoverNone
+      | Ok (Some (AVarHover r n ty)) => LHoverVar r n ty
+      | Ok (Some (AFnHover r n ps ret)) => LHoverFn r (fn_signature n ps ret)
+      | _ => LPanic
+      end
+  end.
+
+Definition diags_obs_of (a : analysis) : list (diag * sev_obs) :=
+  match a with
+  | Some d => map (fun x => (x, match severity_of (d_kind x) with Check.SevError => SevError | Check.SevWarning => SevWarning end)) (cs_diags (doc_check d))
+  | None => []
+  end.
+
+Definition def_obs_of (uri : string) (a : analysis) (p : pos) : lobs :=
+  match a with
+  | None => LDefNone
+  | Some d => match handle_definition d p with Ok None => LDefNone | Ok (Some r) => LDefRange uri r | _ => LPanic end
+  end.
+
+Definition syms_obs_of (a : analysis) : lobs :=
+  match a with
+  | None => LSymbols []
+  | Some d => match handle_symbols d with Ok l => LSymbols l | _ => LPanic end
+  end.
+
+Definition lobs_eqb (a b : lobs) : bool :=
+  match a, b with
+  | LPublished u1 d1, LPublished u2 d2 =>
+      String.eqb u1 u2
+      && list_eqb diag_eqb (filter (fun d => negb (is_unused d)) (map fst d1)) (filter (fun d => negb (is_unused d)) (map fst d2))
+      && multiset_eqb diag_eqb (filter is_unused (map fst d1)) (filter is_unused (map fst d2))
+      && list_eqb (fun x y : diag * sev_obs => match snd x, snd y with SevError, SevError | SevWarning, SevWarning => true | _, _ => false end)
+                  (filter (fun d => negb (is_unused (fst d))) d1) (filter (fun d => negb (is_unused (fst d))) d2)
+  | LHoverNone, LHoverNone | LDefNone, LDefNone | LNothing, LNothing | LPanic, LPanic => true
+  | LHoverVar r1 n1 t1, LHoverVar r2 n2 t2 => range_eqb r1 r2 && String.eqb n1 n2 && String.eqb t1 t2
+  | LHoverFn r1 s1, LHoverFn r2 s2 => range_eqb r1 r2 && String.eqb s1 s2
+  | LDefRange u1 r1, LDefRange u2 r2 => String.eqb u1 u2 && range_eqb r1 r2
+  | LSymbols s1, LSymbols s2 => multiset_eqb symbol_eqb s1 s2
+  | _, _ => false
+  end.
+
+(* the server as implemented (analysis stored at open/change time) and the specification (fresh
+   analysis of the latest text), both as folds over the history *)
+Fixpoint lsp_impl (texts : list (program * list diag)) (st : list (string * (nat * analysis))) (h : list lreq) : list lobs :=
+  match h with
+  | [] => []
+  | r :: h' =>
+      match r with
+      | LOpen u t | LChange u t => let a := analyse_text texts t in LPublished u (diags_obs_of a) :: lsp_impl texts (aset u (t, a) st) h'
+      | LHover u l c => (match alookup u st with Some d => hover_obs_of (snd d) (mkpos l c) | None => LHoverNone end) :: lsp_impl texts st h'
+      | LDef u l c => (match alookup u st with Some d => def_obs_of u (snd d) (mkpos l c) | None => LDefNone end) :: lsp_impl texts st h'
+      | LSyms u => (match alookup u st with Some d => syms_obs_of (snd d) | None => LSymbols [] end) :: lsp_impl texts st h'
+      end
+  end.
+
+Fixpoint lsp_spec (texts : list (program * list diag)) (st : list (string * nat)) (h : list lreq) : list lobs :=
+  match h with
+  | [] => []
+  | r :: h' =>
+      match r with
+      | LOpen u t | LChange u t => LPublished u (diags_obs_of (analyse_text texts t)) :: lsp_spec texts (aset u t st) h'
+      | LHover u l c => (match alookup u st with Some t => hover_obs_of (analyse_text texts t) (mkpos l c) | None => LHoverNone end) :: lsp_spec texts st h'
+      | LDef u l c => (match alookup u st with Some t => def_obs_of u (analyse_text texts t) (mkpos l c) | None => LDefNone end) :: lsp_spec texts st h'
+      | LSyms u => (match alookup u st with Some t => syms_obs_of (analyse_text texts t) | None => LSymbols [] end) :: lsp_spec texts st h'
+      end
+  end.
+
+(* ---- navigation, from the independent traversal of Spec/Names: what a position denotes ---- *)
+Record nav_use := mk_nav_use { nu_range : range; nu_name : string; nu_decl : option (range * string) }.   (* declaration: name range, type *)
+
+Fixpoint nav_uses (declared : list (string * (range * string))) (es : list event) (decls : list vardecl) : list nav_use :=
+  match es with
+  | [] => []
+  | Declare n r :: es' =>
+      (* the declared type is the one of the first declaration of that name *)
+      let ty := match find (fun d => match vd_name d with Some (r', n') => String.eqb n n' && range_eqb r r' | None => false end) decls with
+                | Some d => match vd_type d with Some (_, t) => t | None => "" end
+                | None => "" end in
+      nav_uses (if amem n declared then declared else declared ++ [(n, (r, ty))]) es' decls
+  | Use n r :: es' => mk_nav_use r n (alookup n declared) :: nav_uses declared es' decls
+  end.
+
+Definition resolved_calls (p : program) : list (range * string) :=
+  flat_map (fun d => match vd_origin d with
+                     | Some f => match find_builtin (fc_caller f) with
+                                 | Some b => match b_ctx b with CtxOrigin => [(fc_caller_range f, fc_caller f)] | _ => [] end
+                                 | None => [] end
+                     | None => [] end) (p_vars p)
+  ++ flat_map (fun s => match s with
+                        | StFnCall f => match find_builtin (fc_caller f) with
+                                        | Some b => match b_ctx b with CtxStatement => [(fc_caller_range f, fc_caller f)] | _ => [] end
+                                        | None => [] end
+                        | _ => [] end) (p_stmts p).
+
+Definition strictly_inside (r : range) (p : pos) : bool :=
+  pos_ge p (rstart r) && pos_ge (rend r) p && negb (pos_ge p (rend r)).
+Definition at_end (r : range) (p : pos) : bool := (pline p =? pline (rend r)) && (pchar p =? pchar (rend r)).
+
+Definition nav_info := (list nav_use * list (range * string))%type.
+Definition nav_info_of (p : program) : nav_info := (nav_uses [] (events p) (p_vars p), resolved_calls p).
+
+Definition nav_ok (ni : nav_info) (uri : string) (req : lreq) (o : lobs) : bool :=
+  let uses := fst ni in
+  let calls := snd ni in
+  let judge (pos0 : pos) (is_hover : bool) :=
+    if existsb (fun u => at_end (nu_range u) pos0) uses || existsb (fun c : range * string => at_end (fst c) pos0) calls
+    then true      (* Range.Contains is end-inclusive: either neighbour, or nothing, is acceptable at a boundary *)
+    else
+      match find (fun u => strictly_inside (nu_range u) pos0) uses with
+      | Some u =>
+          match nu_decl u with
+          | Some (dr, ty) => if is_hover then lobs_eqb o (LHoverVar (nu_range u) (nu_name u) ty) else lobs_eqb o (LDefRange uri dr)
+          | None => if is_hover then lobs_eqb o LHoverNone else lobs_eqb o LDefNone
+          end
+      | None =>
+          match find (fun c : range * string => strictly_inside (fst c) pos0) calls with
+          | Some c =>
+              if is_hover then match o with LHoverFn r sg => range_eqb r (fst c) && String.prefix ("`" ++ snd c ++ "(") sg | _ => false end
+              else lobs_eqb o LDefNone
+          | None => if is_hover then lobs_eqb o LHoverNone else lobs_eqb o LDefNone
+          end
+      end in
+  match req with
+  | LHover _ l c => judge (mkpos l c) true
+  | LDef _ l c => judge (mkpos l c) false
+  | _ => true
+  end.
+
+(* navigation is judged on documents whose text parses without error (computed once per text) *)
+Fixpoint nav_all (infos : list (option nav_info)) (st : list (string * nat)) (h : list (lreq * lobs)) : bool :=
+  match h with
+  | [] => true
+  | (r, o) :: h' =>
+      let st' := match r with LOpen u t | LChange u t => aset u t st | _ => st end in
+      let u := match r with LOpen u _ | LChange u _ | LHover u _ _ | LDef u _ _ | LSyms u => u end in
+      (match alookup u st with
+       | Some t => match nth_error infos t with
+                   | Some (Some ni) => nav_ok ni u r o
+                   | _ => true
+                   end
+       | None => true
+       end) && nav_all infos st' h'
+  end.
+
+Definition judge_C19 (c : c19case) : bool * bool * bool :=
+  let reqs := map fst (lc_history c) in
+  let obs := map snd (lc_history c) in
+  (list_eqb lobs_eqb (lsp_impl (lc_texts c) [] reqs) obs,
+   list_eqb lobs_eqb (lsp_spec (lc_texts c) [] reqs) obs
+   && forallb (fun o => match o with LPanic => false | _ => true end) obs
+   && nav_all (map (fun t : program * list diag => match snd t with [] => Some (nav_info_of (fst t)) | _ => None end) (lc_texts c)) [] (lc_history c),
+   negb (Nat.eqb (List.length (lc_history c)) 0)).
